@@ -1,5 +1,6 @@
 import FmpRpc.Model.Compress
 import FmpRpc.Props.C02
+import FmpRpc.Proofs.CompressLemmas
 /-
   C06 — compression is transparent (plumbing proved for every law-abiding
   compressor; PARTIAL: DEFLATE / msgpackzip themselves, sync.Pool reuse and
@@ -24,20 +25,57 @@ theorem compressed_call_transparent (k : Cacher) (max : Nat) (methods : List (By
     (nextFrame max (ctxOf k methods []) (bs ++ r)).rest = r ∧
     ((nextFrame max (ctxOf k methods []) (bs ++ r)).res = .ok (.call seq name arg none) ∨
      (nextFrame max (ctxOf k methods []) (bs ++ r)).res = .ok (.callc seq ctype name arg none)) := by
-  sorry
+  subst htags
+  have hseqwf : (Value.int seq).wf = true := by simp [Value.wf]; omega
+  by_cases h0 : ctype = Gen.compressionNone
+  · have hm0 : requestMsg k seq ctype name arg none = .call seq name arg none := by
+      simp [requestMsg, h0]
+    rw [hm0] at hwire
+    have hfr : nextFrame max (ctxOf k methods []) (bs ++ r) = ⟨.ok (.call seq name arg none), r⟩ := by
+      apply nextFrame_wire max _ (.call seq name arg none) bs r _ (by simp [layout, tagTail])
+        (by simp [layout, tagTail]) hwire hsmall
+      have hl : LegalEncList (.int 0 :: .int seq :: .str name :: arg :: tagElems none)
+          (encList (layout (.call seq name arg none))) := by
+        apply encList_legal
+        · simp [wfList, Value.wf, hw, hlen, tagElems]; omega
+        · simp [rtList, Value.rt, hr, tagElems]
+      exact decodeRPC_call _ _ _ seq name arg none _ r hl (by omega) hm hseq
+        (by simp [layout, tagTail]) (by simp [layout, tagTail]) (by simp)
+    rw [hfr]; exact ⟨rfl, Or.inl rfl⟩
+  · have hm0 : requestMsg k seq ctype name arg none =
+        .callc seq ctype name (compressData k ctype arg) none := by
+      simp [requestMsg, h0]
+    rw [hm0] at hwire
+    have hlb := wire_len max _ bs (by simp [layout, tagTail]) hwire
+    have hfr : nextFrame max (ctxOf k methods []) (bs ++ r) =
+        ⟨.ok (.callc seq ctype name arg none), r⟩ := by
+      apply nextFrame_wire max _ _ bs r _ (by simp [layout, tagTail])
+        (by simp [layout, tagTail]) hwire hsmall
+      simp only [layout, tagTail, List.append_nil, encList, List.length_append, List.length_cons,
+        List.length_nil, List.append_assoc] at hlb ⊢
+      refine decodeRPC_callc_gen _ _ _ seq ctype name arg _ _ _ _ _ r
+        (enc_legal _ (by simp [Value.wf]) rfl) (enc_legal _ hseqwf rfl)
+        (enc_legal _ (by simp [Value.wf]; omega) rfl)
+        (enc_legal _ (by simp [Value.wf, hlen]) rfl)
+        (decodeSlot k methods [] _ ctype _ arg hw hr (compressData_wf k ctype arg hw (by omega))
+          (by omega) r)
+        hm hseq ⟨by omega, hct.2⟩ (by simp)
+    rw [hfr]; exact ⟨rfl, Or.inr rfl⟩
 
 /-- an unknown compression type is "none" on both ends: the sender ships the
     raw argument, the receiver decodes it directly -/
 theorem unknown_is_none (k : Cacher) (ctype : Int) (v : Value) (h : hasCompressor ctype = false) :
     compressData k ctype v = v := by
-  sorry
+  simp [compressData, get_none k ctype h]
 
 /-- the payload of a compressed slot is the compressed msgpack encoding, and
     decompressing it gives that encoding back -/
 theorem payload_roundtrip (k : Cacher) (ctype : Int) (v : Value) (h : hasCompressor ctype = true) :
     ∃ c blob, k.get ctype = some c ∧ compressData k ctype v = .bin blob ∧ blob ≠ [] ∧
       decompressOf k ctype blob = some (some (enc v)) := by
-  sorry
+  obtain ⟨c, hg⟩ := get_some k ctype h
+  exact ⟨c, c.compress (enc v), hg, by simp [compressData, hg], c.nonempty _,
+    by simp [decompressOf, hg, c.law]⟩
 
 /-- **The reply is compressed with the type of the request and decompressed
     with the type remembered by the pending call**: with the pending table
@@ -49,6 +87,17 @@ theorem compressed_reply_transparent (k : Cacher) (max : Nat) (seq ctype : Int) 
     (herr : err.length < 4294967296)
     (hwire : wire max (replyMsg k seq ctype err res) = some bs) (hsmall : bs.length < 2147483648) :
     nextFrame max (ctxOf k [] [(seq, ctype, true)]) (bs ++ r) = ⟨.ok (.resp seq (.str err) res), r⟩ := by
-  sorry
+  have hlb := wire_len max _ bs (by simp [layout, replyMsg]) hwire
+  apply nextFrame_wire max _ _ bs r _ (by simp [layout, replyMsg])
+    (by simp [layout, replyMsg]) hwire hsmall
+  simp only [replyMsg, layout, encList, List.length_append, List.length_cons,
+    List.length_nil, List.append_assoc, List.append_nil] at hlb ⊢
+  exact decodeRPC_resp_gen _ _ _ seq ctype err res _ _ _ _ r
+    (enc_legal _ (by simp [Value.wf]) rfl)
+    (enc_legal _ (by simp [Value.wf]; omega) rfl)
+    (decErrStr_slot err herr _)
+    (decodeSlot k [] _ _ ctype _ res hw hr (compressData_wf k ctype res hw (by omega))
+      (by omega) r)
+    (by simp [ctxOf, lookupCall]) hseq (by simp)
 
 end FmpRpc.C06
